@@ -18,12 +18,12 @@ def jobs(tier, seed):
     js = c02.decode_jobs(tier, group="rs_decode_core") + c10.api_jobs(tier, fns=(1, 2, 3, 4), group_prefix="rs_api")
     ld = lbc.c03_jobs(tier, seed, prop="C01", prefix="c01ml", group_prefix="lbc_sound_finish") + lbc.c04_jobs(tier, seed, prop="C01", prefix="c01it", group_prefix="lbc_sound_stream")
     if tier == "quick":   # a slice here; the whole families run under C03 / C04
-        ld = [j for i, j in enumerate(ld) if i % 5 == 0]
+        ld = [j for j in ld if lbc.pick(j.name, 5, 0)]
     else:
-        ld = [j for i, j in enumerate(ld) if i % 3 == 0]
+        ld = [j for j in ld if lbc.pick(j.name, 3, 0)]
     # ML decoding with symbol lengths that exercise the 8/4/2/1-operand and 64/32/8-bit splits of the multi-operand XOR kernels (many equations below a pivot)
     rng = __import__("random").Random(seed + 7)
-    for key in (("k2r7", "k4r8x") if tier == "quick" else ("k2r7", "k4r8x", "k4r6", "k5r7", "k5r5")):
+    for key in (("k4r6", "k4r8x") if tier == "quick" else ("k4r6", "k4r8x", "k2r7", "k5r7", "k5r5")):   # k4r6: N1 = 5, four equations below the first pivot
         k, r = lbc.LDPC[key][0], lbc.LDPC[key][1]
         n = k + r
         for ln in ((7, 13) if tier == "quick" else (5, 6, 7, 13, 21)):
